@@ -50,6 +50,15 @@ field, for every pair of frequencies -/
 theorem cumulative_strength_rotates (θ0 c c' w : ℝ) (k : Fin N) (X : Fin N → ℝ) :
     strengthRow θ0 c c' w (rotE k X) = rotE k (strengthRow θ0 c c' w X) := strengthRow_rot θ0 c c' w k X
 
+/-- mirror image (grid starting at 0): both kernels are even in the index difference — the wrap of
+`-x` has the magnitude of the wrap of `x` — so saturation and cumulative strength of the mirrored
+spectrum are the mirrored fields -/
+theorem saturation_mirrors (bp : BrkP ℝ) (sat : Fin N → ℝ) :
+    bandRow bp 0 (mirE sat) = mirE (bandRow bp 0 sat) := bandRow_mirror bp sat
+
+theorem cumulative_strength_mirrors (c c' w : ℝ) (X : Fin N → ℝ) :
+    strengthRow 0 c c' w (mirE X) = mirE (strengthRow 0 c c' w X) := strengthRow_mirror c c' w X
+
 /-- a bin-wise function of a rotated field is the rotated bin-wise function (saturation and
 cumulative entries given their rotated saturation / strength; the ST6 terms, whose per-frequency
 coefficients are direction integrals) -/
